@@ -130,6 +130,7 @@ class Agent:
                 seen_eomv = True
             elif seen_eomv:
                 self.flags.add("getnext:eomv-before-live")
+                self.flags.add(("getnext:eomv-before-live", len(self.requests)))
         return Pdu(ber.P_RESPONSE, rid, 0, 0, out)
 
     def _bulk(self, req: Pdu, rid: int) -> Pdu:
